@@ -462,6 +462,31 @@ example : WF canonicalSample = true ∧ Canonical canonicalSample = true ∧
     (encodeMdlR canonicalSample sampleRedundant).length = 886 := by
   decide +kernel
 
+/-- hypothesis of `c07_writer_reads_same` on the same records: they agree on every field that is read
+(decided by evaluation) although every replaced field differs -/
+example : ReadsSame (fileHeader canonicalSample) (sampleRedundant.fh (fileHeader canonicalSample))
+    (modelData canonicalSample) (sampleRedundant.md (modelData canonicalSample)) := by
+  decide +kernel
+
+/-- `canonicalSample` with its mesh in all three LODs, all in use -/
+def threeLodSample : AbstractModel :=
+  { canonicalSample with
+    lodCount := 3
+    lods := canonicalSample.lods.take 1 ++ (canonicalSample.lods.take 1 ++ canonicalSample.lods.take 1) }
+
+/-- the case outside `keepsTail` exists (second alternative of `c07_write_redundant_bytes`, the case
+`c07_write_redundant_reparse` is about): three LODs in use, every stored size and the file header's
+vertex offsets 0 — the largest declared end is the start of LOD 2's index section, 16 bytes before
+the end of the 1398-byte file.  (Evaluated with `#eval`, not kernel-checked for time: the written
+buffer has 1388 bytes — the file without the 10 bytes of index padding behind the last mesh — and
+re-parses to the view of the model.) -/
+example : WF threeLodSample = true ∧ Canonical threeLodSample = true ∧
+    (view threeLodSample).isSome = true ∧
+    (Redundant.const 0 3).keepsTail threeLodSample = false ∧
+    (encodeMdlR threeLodSample (Redundant.const 0 3)).length = 1398 ∧
+    declaredEnd ((Redundant.const 0 3).fh (fileHeader threeLodSample)) = 1382 := by
+  decide +kernel
+
 /-- sanity (test, labelled as such): the executable model run on a concrete file with perturbed
 copies (every unread `u32` copy 40, file-header LOD count 7): the written buffer is the file followed
 by zeros up to the declared end 926 (index offset of LOD 2 — kept, the file length — + 40) … -/
